@@ -12,6 +12,7 @@ import LinVerif.Lemmas.C01Pending
 import LinVerif.Lemmas.C01Entries
 import LinVerif.Lemmas.C01Torn
 import LinVerif.Lemmas.C01Family
+import LinVerif.Lemmas.C01Sched
 import LinVerif.Generated.C04
 import LinVerif.Generated.C01
 
@@ -328,6 +329,83 @@ theorem flush_allocates_next (m m' : Mem) (name : Nat) (kvs : List (Nat × Nat))
         obtain ⟨rfl, rfl⟩ := h
         exact Or.inr ⟨rfl, rfl⟩
 
+/-- keep the calls of `l` that are named in `steps` -/
+def only (steps l : List String) : List String := l.filter (fun c => steps.contains c)
+
+/-! ## 3b. concurrent committers of one store (flushes / compactions / bookkeeping commits of its families)
+
+The histories above are sequences of complete operations. Concurrent goroutines interleave at the
+atomic steps the code has: number allocation (`NextFileNumber`, under `vs.mutex`), the part of
+`CommitFamilyEditLog` before `vs.mutex.Lock()`, and its critical section. What a committer has read
+when it reaches the lock is the regenerated fact `Generated.C01.commitBeforeLockCalls`. -/
+
+/-- regenerated step order: "nextFileNumber is read and logged under vs.mutex" -/
+def nextReadUnderLock : Bool :=
+  !(Generated.C01.commitBeforeLockCalls.contains readNextStep) && Generated.C01.commitUnderLockCalls.contains readNextStep &&
+    Generated.C01.commitLockHeldToReturn
+
+theorem tie_commit_next_under_lock : nextReadUnderLock = true := by decide
+
+/-- CommitFamilyEditLog split at `vs.mutex.Lock()`: before it only the family lookup; under it (held to
+return) the read of nextFileNumber, Add, persist, GetSnapshot (base of the clone), apply, appendVersion —
+in this order. NextFileNumber allocates under the same mutex. -/
+theorem tie_commit_lock_split :
+    only (commitBeforeLockSteps ++ commitUnderLockSteps) Generated.C01.commitBeforeLockCalls = commitBeforeLockSteps ∧
+    only (commitBeforeLockSteps ++ commitUnderLockSteps) Generated.C01.commitUnderLockCalls = commitUnderLockSteps ∧
+    Generated.C01.commitLockHeldToReturn = true ∧
+    only ["mutex.Lock", "defer:mutex.Unlock", "nextFileNumber.Inc"] Generated.C01.nextFileNumberCalls
+      = ["mutex.Lock", "defer:mutex.Unlock", "nextFileNumber.Inc"] := by decide
+
+/-- with the split the source has, a committer reaches the lock holding nothing of the version set's state -/
+theorem commit_reads_nothing_before_lock (m : Mem) (fid : Int) :
+    commitRead Generated.C01.commitBeforeLockCalls m fid = ⟨none, none⟩ :=
+  commitRead_none _ (by decide) (by decide) m fid
+
+/-- the critical section with nothing read before it is the model's atomic commit -/
+theorem commitLocked_is_commitEditLog (m : Mem) (fid : Int) (logs : List Log) :
+    commitLocked m fid logs (commitRead Generated.C01.commitBeforeLockCalls m fid) = commitEditLog m fid logs := by
+  rw [commit_reads_nothing_before_lock, commitLocked_none]
+
+/-- **interleaved_commits_refine_history.** Every concurrent execution — complete operations of any
+goroutine interleaved in any way with any number of commits in flight (each split at `vs.mutex.Lock()`
+as the source splits it) — reaches exactly the state of a sequential history: the one in which each
+commit runs at its critical section. Hence every theorem above about reachable states holds for all
+interleavings. (In-flight commits of this theorem are commits through `family.commitEditLog` of
+bookkeeping edit logs; a flush's / compaction's commit is covered at the level of the allocator by
+`fileno_fresh_interleaved`.) -/
+theorem interleaved_commits_refine_history (cfg : Cfg) (steps : List Step) (s' : St) (infl' : List InFlight)
+    (h : runSteps Generated.C01.commitBeforeLockCalls cfg St.init [] steps = some (s', infl')) :
+    execAll cfg St.init (project [] steps) = some s' :=
+  interleaved_refines _ (by decide) (by decide) cfg steps St.init [] s' infl' (by simp) h
+
+/-- file numbers stay fresh in every state a concurrent execution reaches -/
+theorem fileno_fresh_concurrent (cfg : Cfg) (steps : List Step) (s' : St) (infl' : List InFlight) (m : Mem)
+    (h : runSteps Generated.C01.commitBeforeLockCalls cfg St.init [] steps = some (s', infl')) (hm : s'.mem = some m) :
+    (∀ f ∈ m.vs.fams, ∀ x ∈ f.ver.nums, x < m.vs.next) ∧ (∀ f ∈ m.fams, ∀ x ∈ f.pending, x < m.vs.next) ∧
+    m.journal < m.vs.next :=
+  let r := fileno_fresh cfg _ s' m (interleaved_commits_refine_history cfg steps s' infl' h) hm
+  ⟨r.1, r.2.1, r.2.2.1⟩
+
+/-- **fileno_fresh_interleaved.** Any number of goroutines allocating table numbers and committing
+(flushes, compaction outputs, commits without a table), every interleaving of the atomic steps
+alloc / enter-commit / critical-section, with the read of nextFileNumber where the source has it:
+in every reachable state (i) every number ever handed out is below the live allocator, and (ii) the
+allocator recovered from the manifest (replay of the NextFileNumber logs in append order — the value
+persisted LAST wins) is above every table number any record references: a table created after a crash
+at this point never reuses the number of a referenced file. -/
+theorem fileno_fresh_interleaved (n0 : Int) (evs : List KvSched.Ev) (s : KvSched.S)
+    (h : KvSched.run nextReadUnderLock (KvSched.S.init n0) evs = some s) :
+    (∀ x ∈ s.handed, x < s.next) ∧
+    (∀ r ∈ s.recs, ∀ x ∈ r.1, x < KvSched.replayNext n0 s.recs) ∧
+    (s.recs ≠ [] → KvSched.replayNext n0 s.recs ≤ s.next) := by
+  rw [tie_commit_next_under_lock] at h
+  have hi := KvSched.run_inv n0 evs _ s (KvSched.inv_init n0) h
+  exact ⟨hi.handed, hi.fresh, fun hne => hi.below.resolve_right hne⟩
+
+/-- the model's allocator step after a logged number is the version set's `setNumbers` (tied to
+setNextFileNumberWithoutLock by `tie_setNumbers`) -/
+theorem tie_sched_afterLog (n : Int) : KvSched.afterLog n = Generated.C01.nextAfterNext n := rfl
+
 /-! ## 4. codec round trips -/
 
 theorem uvarint_roundtrip (n : Nat) (rest : Bytes) : getUvarint (putUvarint n ++ rest) = some (n, rest) :=
@@ -388,9 +466,6 @@ theorem tie_names :
     Generated.C01.manifestPrefix = "MANIFEST-" ∧ Generated.C01.manifestFormat = "%s%06d" ∧
     Generated.C01.tableFormat = "%06d.%s" ∧ Generated.C01.sstSuffix = "sst" ∧ Generated.C01.currentName = "CURRENT" ∧
     Generated.C01.tmpSuffix = "tmp" ∧ Generated.C01.lock = "LOCK" ∧ Generated.C01.options = "OPTIONS" := by decide
-
-/-- keep the calls of `l` that are named in `steps` -/
-def only (steps l : List String) : List String := l.filter (fun c => steps.contains c)
 
 theorem tie_flushCommit_order : only flushCommitSteps Generated.C01.flushCommitCalls = flushCommitSteps := by decide
 theorem tie_initJournal_order : only initJournalSteps Generated.C01.initJournalCalls = initJournalSteps := by decide
@@ -537,6 +612,27 @@ theorem swapped_order_family_stuck :
     ((openStore ⟨2, []⟩ afterMkdirOnly).1.map (fun m => (m.fam? 10).isSome)) = some false ∧
     ((openStore ⟨2, []⟩ afterMkdirOnly).1.bind
       (fun m => createFamily m (applyFsList afterMkdirOnly (openStore ⟨2, []⟩ afterMkdirOnly).2) 10 0)).isNone = true := by
+  decide
+
+/-- the read of nextFileNumber moved BEFORE `vs.mutex.Lock()` (`underLock = false`): committer 0 enters
+(captures 2), committer 1 allocates 2, commits (logs 3), allocates 4, commits (logs 5), then committer 0
+runs its critical section and appends the stale 2 as the LAST record: the live allocator falls back to 3
+and the allocator recovered from the manifest is 3 although table 4 is referenced. -/
+theorem next_read_before_lock_reuses :
+    (KvSched.run false (KvSched.S.init 2)
+      [.enter 0, .alloc 1, .enter 1, .locked 1, .alloc 1, .enter 1, .locked 1, .locked 0]).map
+      (fun s => (s.next, KvSched.replayNext 2 s.recs, s.recs)) = some (3, 3, [([2], 3), ([4], 5), ([], 2)]) := by
+  decide
+
+/-- the same on the full model: a commit that took the family's version before the lock installs a
+version without the table a concurrent flush of the same family committed in between (lost update),
+while the manifest holds both records -/
+theorem snapshot_before_lock_loses_commit :
+    let m0 : Mem := ⟨⟨2, []⟩, [⟨⟨10, 1, 4⟩, [], none⟩], 1, ⟨[⟨1, Version.empty 2⟩], 1, 2⟩, 1⟩
+    let pre := commitRead ["vs.GetFamilyVersion", readVersionStep] m0 1
+    ((commitEditLog m0 1 [.newFile 0 2 1 1 30]).bind (fun r =>
+      (commitLocked r.1 1 [.newReferenceFile [] 7 3] pre).map (fun r2 => (r2.1.vs.verOf 1).map (fun v => v.files.length))))
+      = some (some 0) := by
   decide
 
 end Counterfactual
